@@ -77,7 +77,7 @@ Proof.
   - apply (ssem_call Bf _ _ _ b _ _ _ Eb) in H. destruct H as (mo & fid & _ & _ & H).
     destruct (den (w_glob W) e) as [x|err]; destruct H as [-> _]; [|reflexivity].
     destruct b; reflexivity.
-  - apply (ssem_ucall Bf _ _ _ _ _ _ Eb) in H. destruct H as (body & mo & fid & _ & _ & _ & _ & H).
+  - apply (ssem_ucall Bf _ _ _ _ _ _ Eb) in H. destruct H as (body & mo & fid & _ & _ & _ & _ & _ & H).
     destruct (den (w_glob W) e) as [x|err]; [destruct H as (-> & _)|destruct H as [-> _]]; reflexivity.
 Qed.
 Print Assumptions C04_builtin_call_changes_no_global.
@@ -107,7 +107,7 @@ Theorem C04_compiled_call_restores_the_caller : forall Bf nm b e d s s' w,
   SpecS Bf (NCall (NName nm) [e]) d 0 s s' w.
 Proof.
   intros Bf nm b e d s s' w Hb Hp Hwf H.
-  apply (comp_stmt Bf (NCall (NName nm) [e])); [cbn [wstmt is_bcall]; exact Hp|reflexivity|exact Hwf|exact H].
+  apply (comp_stmt Bf (NCall (NName nm) [e])); [cbn [wstmt is_bcall forallb]; rewrite Hp; reflexivity|reflexivity|exact Hwf|exact H].
 Qed.
 Print Assumptions C04_compiled_call_restores_the_caller.
 
@@ -120,7 +120,7 @@ Theorem C04_user_call_changes_nothing : forall Bf n W nm e W' res,
   w_glob W' = w_glob W /\ w_out W' = w_out W /\ w_in W' = w_in W.
 Proof.
   intros Bf n W nm e W' res Hb H. apply (ssem_ucall Bf _ _ _ _ _ _ Hb) in H.
-  destruct H as (body & mo & fid & _ & _ & _ & _ & H).
+  destruct H as (body & mo & fid & _ & _ & _ & _ & _ & H).
   destruct (den (w_glob W) e) as [x|err]; [destruct H as (-> & _)|destruct H as [-> _]]; repeat split.
 Qed.
 Print Assumptions C04_user_call_changes_nothing.
